@@ -139,15 +139,40 @@ def accum_flavour(db):
     return None
 
 
+DIGITS = tuple(range(48, 58))
+
+
+def record(st, kind, before, k, new_len, excl):
+    """ghost trace of the scanners for the grammar clause: the run (kind, remaining length before it, its length) and what contract A promises
+    about the byte that follows the run (it is not one of `excl`)"""
+    g = dict(st.ghost)
+    g['events'] = tuple(g.get('events', ())) + ((kind, before, pfreeze(st.norm(k))),)
+    be = dict(g.get('byte_excl') or {})
+    key = pfreeze(st.norm(new_len))
+    be[key] = tuple(sorted(set(be.get(key, ())) | set(excl)))
+    g['byte_excl'] = be
+    st.ghost = g
+    a = st.atoms.lookup(('byteat', key))
+    if a is not None and a in st.bounds and a not in st.subst:
+        # the byte at that position was read before (e.g. by a sign test): it learns the promise now
+        from ..poly import patom
+        for v in excl:
+            st.assume(padd(patom(a), pconst(v), -1), NEG | POS)
+
+
 def value_summaries(db, flavour):
     """CONTRACT A (assumed): skip_leading_zeroes consumes the maximal prefix of '0' bytes; accum_coeff consumes the maximal prefix of k ASCII digits
     and leaves *coeff = fold(*coeff * 10^k + value of these digits) with the arithmetic flavour read off its body (modulo 2^128 / saturating at
     2^128-1), returning k; accum_exp likewise with exact arithmetic for at most 7 digits.  Ghost quantities: n = number of digits accumulated so far,
     D = their value as one decimal numeral (10^(n-1) <= D < 10^n when the first accumulated digit is known to be non-zero, else 0 <= D < 10^n)."""
     def s_skip(I, st, args, fid):
-        shrink(I, st, args[0])
+        before = pfreeze_len(st, lit_of(I, st, args[0]))
+        old, new, commit_lit = shrink_later(I, st, args[0])
+        st.decide(padd(old.p, new.p, -1), [ZERO, POS | NEG])           # any zero skipped at all? (decided on the path)
+        commit_lit()
         lit = lit_of(I, st, args[0])
         st.ghost = dict(st.ghost, zskip=pfreeze_len(st, lit))
+        record(st, 'zeros', before, padd(old.p, new.p, -1), new.p, (48,))
         return args[0]
 
     def s_coeff(I, st, args, fid):
@@ -175,6 +200,7 @@ def value_summaries(db, flavour):
             g['k_last'] = pfreeze(pconst(0))
             st.ghost = g
             commit_lit()
+            record(st, 'digits', before, pconst(0), new.p, DIGITS)
             return I.mk(st, 'usize', pconst(0))
         if lead_prev is None:
             # first digit accumulated at all: non-zero iff we stand right behind skip_leading_zeroes
@@ -214,22 +240,27 @@ def value_summaries(db, flavour):
         g['k_last'] = pfreeze(st.norm(k.p))
         g['n_calls'] = g.get('n_calls', 0) + 1
         st.ghost = g
+        record(st, 'digits', before, k.p, new.p, DIGITS)
         return k
 
     def s_exp(I, st, args, fid):
         e = deref(I, st, args[1])
         if st.itv(e) != (0, 0):
             raise Stop('summary of accum_exp needs *exp == 0 at the call site')
+        before = pfreeze_len(st, lit_of(I, st, args[0]))
         old, new, commit_lit = shrink_later(I, st, args[0])
         k = I.mk(st, 'usize', padd(old.p, new.p, -1), 0, None)
+        st.decide(k.p, [ZERO, POS | NEG])
         small = st.decide(padd(k.p, pconst(2), -1), [NEG | ZERO, POS])
+        lead = st.ghost.get('zskip') == before        # right behind skip_leading_zeroes: the first exponent digit (if any) is not '0'
         if small == 0:
             E = st.fresh('isize', 0, 99, 'E')
         else:
-            E = st.fresh('isize', 0, EXP_MAX, 'E')
+            E = st.fresh('isize', 100 if lead else 0, EXP_MAX, 'E')       # three or more digits, the first one non-zero: at least 100
         commit_lit()
         write_back(I, st, args[1], E)
         st.ghost = dict(st.ghost, E=pfreeze(st.norm(E.p)))
+        record(st, 'expdigits', before, k.p, new.p, DIGITS)
         return k
     return {helper(db, 'skip_leading_zeroes')['id']: s_skip, helper(db, 'accum_coeff')['id']: s_coeff, helper(db, 'accum_exp')['id']: s_exp}
 
@@ -261,19 +292,35 @@ def wrap_cases(s, D):
     return res
 
 
+_EXPLORED = {}
+
+
+def explore_parser(db):
+    """one exploration of str_to_dec over the contract-A summaries with position-keyed bytes, shared by the value and the grammar oracle"""
+    if 'r' not in _EXPLORED:
+        flavour = accum_flavour(db)
+        fn = db.fns.get(P + 'str_to_dec')
+        if flavour is None or fn is None:
+            _EXPLORED['r'] = (flavour, fn, None, None)
+        else:
+            opts = Opts(summaries=value_summaries(db, flavour), max_paths=50000)
+            opts.byte_positions = True
+            I = Interp(db, opts)
+            st = I.new_state()
+            st.decomp_depth = 2
+            L0 = st.sym('len', 0, MAXLEN, 'usize')
+            I.call_root(st, fn, [SliceVal(L0, 'str')])
+            _EXPLORED['r'] = (flavour, fn, L0, I.explore(st))
+    return _EXPLORED['r']
+
+
 def job_value(db):
     from ..poly import pneg
     from ..harness import res_parts
     bad = []
-    flavour = accum_flavour(db)
-    fn = db.fns.get(P + 'str_to_dec')
-    if flavour is None or fn is None:
+    flavour, fn, L0, outs = explore_parser(db)
+    if outs is None:
         return [('V-PARSE-VALUE', 'str_to_dec', False, 'accum_coeff does not accumulate with wrapping_* or saturating_* operations only: contract A cannot be instantiated', None)]
-    I = Interp(db, Opts(summaries=value_summaries(db, flavour), max_paths=50000))
-    st = I.new_state()
-    st.decomp_depth = 2
-    I.call_root(st, fn, [SliceVal(st.sym('len', 0, MAXLEN, 'usize'), 'str')])
-    outs = I.explore(st)
     n_ok = n_ovf = 0
     for o in outs:
         s = o.state
@@ -342,6 +389,197 @@ def job_value(db):
              span_str(fn.get('span')) if seen else None)]
 
 
+# ----------------------------------------------------------------------------- grammar clause: which byte strings are accepted
+def abstract_string(s, L0):
+    """the input string as far as path s knows it: tokens ('CH', byte) | ('zeros',) | ('digits',) | ('expdigits',) (runs of >= 1 digit bytes promised
+    by contract A) | ('BYTE', allowed set), closed by ('END',) | ('UNKNOWN',) (unread tail, possibly empty) | ('UNDECIDED',).
+    Positions are remaining lengths: L0 at the first byte; a run of k bytes or a single byte moves on by k resp. 1."""
+    from ..poly import patom, pthaw, pis_const
+    events = list(s.ghost.get('events', ()))
+    toks = []
+    cur = s.norm(L0)
+    # the byte atoms of this path with their positions under the final substitution
+    mine = [(i_, pfreeze(s.norm(pthaw(s.atoms.desc[i_][1])))) for i_ in set(s.bounds) | set(s.subst) if s.atoms.desc[i_][0] == 'byteat']
+    for _ in range(60):
+        if events and poly_eq(s, cur, dict(events[0][1])):
+            kind, _b, kf = events.pop(0)
+            k = dict(kf)
+            sg = s.sign(k)
+            if sg == ZERO:
+                continue
+            if 0 in sg:
+                return toks + [('UNDECIDED',)]
+            toks.append((kind,))
+            cur = s.norm(padd(cur, k, -1))
+            continue
+        sc = s.sign(cur)
+        if sc == ZERO:
+            return toks + [('END',)]
+        fk = pfreeze(s.norm(cur))
+        if 0 in sc:
+            # the string may end here; if it does not, contract A may still promise something about the next byte
+            promised = set()
+            for k_, vs in (s.ghost.get('byte_excl') or {}).items():
+                if k_ == fk or pfreeze(s.norm(pthaw(k_))) == fk:
+                    promised |= set(vs)
+            if promised:
+                return toks + [('MAYBE', frozenset(set(range(256)) - promised))]
+            return toks + [('UNKNOWN',)]
+        # every atom of this path that stands for the byte at this position (substitutions may have renamed the position after an atom was made)
+        same = [i_ for i_, k1 in mine if k1 == fk]
+        promised = set()
+        for k_, vs in (s.ghost.get('byte_excl') or {}).items():
+            if k_ == fk or pfreeze(s.norm(pthaw(k_))) == fk:
+                promised |= set(vs)
+        if not same and not promised:
+            return toks + [('UNKNOWN',)]
+        allowed = set(range(256)) - promised
+        for a in same:
+            cv = pis_const(s.norm(patom(a)))
+            if cv is not None:
+                allowed &= {cv}
+                continue
+            lo, hi = s.bounds.get(a, (0, 255))
+            f = s.forms.get((((a,), 1),))
+            ex = set(f[2]) if f else set()
+            if f:
+                lo = max(lo, f[0]) if f[0] is not None else lo
+                hi = min(hi, f[1]) if f[1] is not None else hi
+            allowed &= set(v for v in range(max(lo, 0), min(hi, 255) + 1) if v not in ex)
+        if not allowed:
+            return toks + [('UNDECIDED',)]
+        if len(allowed) == 1:
+            toks.append(('CH', next(iter(allowed))))
+            cur = s.norm(padd(cur, pconst(1), -1))
+            continue
+        return toks + [('BYTE', frozenset(allowed)), ('UNKNOWN',)]
+    return toks + [('UNDECIDED',)]
+
+
+# the literal grammar of the statement as a DFA over byte classes:  [+|-](digits[.digits*] | .digits)[(e|E)[+|-]digits]
+G_ACCEPT = {2, 3, 4, 8}
+G_TRANS = {0: {'s': 1, 'd': 2, '.': 5}, 1: {'d': 2, '.': 5}, 2: {'d': 2, '.': 3, 'e': 6}, 3: {'d': 4, 'e': 6}, 4: {'d': 4, 'e': 6}, 5: {'d': 4},
+           6: {'s': 7, 'd': 8}, 7: {'d': 8}, 8: {'d': 8}}
+
+
+def byte_class(v):
+    if v in (43, 45):
+        return 's'
+    if 48 <= v <= 57:
+        return 'd'
+    if v == 46:
+        return '.'
+    if v in (101, 69):
+        return 'e'
+    return 'x'
+
+
+def grammar_verdict(toks):
+    """(may_be_valid, may_be_invalid, complete) over all concrete strings matching the token list"""
+    states = {0}
+    for tk in toks:
+        if tk[0] in ('zeros', 'digits', 'expdigits'):
+            states = set(G_TRANS.get(q, {}).get('d', 'DEAD') for q in states)
+        elif tk[0] == 'CH':
+            c = byte_class(tk[1])
+            states = set(G_TRANS.get(q, {}).get(c, 'DEAD') for q in states)
+        elif tk[0] == 'BYTE':
+            states = set(G_TRANS.get(q, {}).get(byte_class(v), 'DEAD') for q in states for v in tk[1])
+        elif tk[0] == 'END':
+            return (any(q in G_ACCEPT for q in states), any(q not in G_ACCEPT for q in states), True)
+        elif tk[0] == 'UNKNOWN':
+            return (any(q != 'DEAD' for q in states), True, False)
+        elif tk[0] == 'MAYBE':
+            # either the end of the string, or one of the allowed bytes followed by anything
+            nxt = set(G_TRANS.get(q, {}).get(byte_class(v), 'DEAD') for q in states for v in tk[1])
+            return (any(q in G_ACCEPT for q in states) or any(q != 'DEAD' for q in nxt), True, False)
+        else:
+            return (True, True, False)
+    return (True, True, False)
+
+
+def show_toks(toks):
+    out = []
+    for tk in toks:
+        if tk[0] == 'CH':
+            out.append(repr(chr(tk[1])))
+        elif tk[0] == 'BYTE':
+            out.append('<one of %d bytes>' % len(tk[1]))
+        else:
+            out.append({'zeros': '0+', 'digits': 'digit+', 'expdigits': 'digit+', 'END': '$', 'UNKNOWN': '...', 'UNDECIDED': '??', 'MAYBE': '($ | <one of %d bytes> ...)' % (len(tk[1]) if len(tk) > 1 else 0)}[tk[0]])
+    return ' '.join(out)
+
+
+def job_grammar(db):
+    from ..poly import pneg
+    from ..harness import res_parts
+    flavour, fn, L0, outs = explore_parser(db)
+    if outs is None:
+        return [('G-PARSE-GRAMMAR', 'str_to_dec', False, 'contract A cannot be instantiated (see V-PARSE-VALUE)', None)]
+    bad = []
+    stats = {}
+    for o in outs:
+        s = o.state
+        if o.kind != 'ret':
+            bad.append(show_outcome(o)[:200])
+            continue
+        rp = res_parts(o.value)
+        if rp is None:
+            bad.append('not a Result')
+            continue
+        toks = abstract_string(s, L0.p)
+        mv, mi, complete = grammar_verdict(toks)
+        shape = show_toks(toks)
+        kind = 'Ok' if rp[0] == 'ok' else variant_name(db, rp[1])
+        stats[kind] = stats.get(kind, 0) + 1
+        if kind == 'Ok':
+            if mi:
+                bad.append('Ok for the input shape  %s  which is %s a literal of the grammar' % (shape, 'not' if not mv else 'not necessarily'))
+                continue
+            # sign association: coefficient and exponent carry the signs written in the literal
+            v = rp[1]
+            dig = s.ghost.get('digits')
+            if dig is not None and isinstance(v, Agg) and len(v.fields) == 2:
+                c, e = v.fields
+                D = dict(dig[0])
+                neg = bool(toks) and toks[0] == ('CH', 45)
+                if not poly_eq(s, c.p, pneg(D) if neg else D):
+                    bad.append('sign of the coefficient does not follow the literal\'s sign byte for the shape  %s' % shape)
+                E = s.ghost.get('E')
+                if E is not None:
+                    ie = [i for i, tk in enumerate(toks) if tk[0] == 'CH' and tk[1] in (101, 69)]
+                    eneg = bool(ie) and ie[0] + 1 < len(toks) and toks[ie[0] + 1] == ('CH', 45)
+                    kf = dict(s.ghost['k_last']) if any(tk == ('CH', 46) for tk in toks) else pconst(0)
+                    if not poly_eq(s, padd(e.p, kf), pneg(dict(E)) if eneg else dict(E)):
+                        bad.append('sign of the exponent does not follow the literal for the shape  %s' % shape)
+        elif kind == 'Empty':
+            if toks != [('END',)]:
+                bad.append('Err(Empty) for the non-empty shape  %s' % shape)
+        elif kind == 'Invalid':
+            if mv:
+                bad.append('Err(Invalid) for the input shape  %s  which %s a literal of the grammar' % (shape, 'is' if not mi else 'may be'))
+            elif toks == [('END',)]:
+                bad.append('the empty string must give Err(Empty)')
+        elif kind == 'InternalOverflow':
+            pass        # justified by the value clause (V-PARSE-VALUE): the digits exceed i128::MAX, so no completion can be Ok
+        elif kind == 'FracDigitLimitExceeded':
+            E = s.ghost.get('E')
+            huge = E is not None and s.sign(padd(dict(E), pconst(100), -1)) <= (ZERO | POS)
+            # an exponent of magnitude >= 100 can never be folded into a Decimal (more than 18 fractional digits resp. beyond 10^38),
+            # whatever follows: the early return is then justified
+            if mv and not complete and not huge:
+                bad.append('Err(FracDigitLimitExceeded) before the end of the input for the shape  %s : completions that are literals with at most 18 fractional digits exist' % shape)
+        else:
+            bad.append('unexpected error kind %s' % kind)
+    if not outs:
+        bad.append('no outcome')
+    seen = []
+    for b in bad:
+        if b not in seen:
+            seen.append(b)
+    return [('G-PARSE-GRAMMAR', 'str_to_dec', not seen, ' | '.join(seen[:40]) or 'paths=%d %s' % (len(outs), sorted(stats.items())), span_str(fn.get('span')) if seen else None)]
+
+
 def classify(outs, bad):
     n = 0
     for o in outs:
@@ -359,8 +597,8 @@ def run_job(job):
     db = get_db()
     setup_thresholds(db)
     bad = []
-    if kind == 'value':
-        return job_value(db)
+    if kind == 'value+grammar':
+        return job_value(db) + job_grammar(db)
     if kind == 'helper':
         fn = helper(db, name)
         opts = Opts(max_paths=20000)
@@ -426,8 +664,9 @@ def run(rep, tier):
     rep.tree_hash = db.tree_hash
     rep.configs = ['default']
     rep.level = 'other'
-    jobs = [('helper', 'skip_leading_zeroes'), ('helper', 'accum_coeff'), ('helper', 'accum_exp'), ('root', 'str_to_dec'), ('root', 'from_str'), ('value', None)]
+    jobs = [('helper', 'skip_leading_zeroes'), ('helper', 'accum_coeff'), ('helper', 'accum_exp'), ('root', 'str_to_dec'), ('root', 'from_str'), ('value+grammar', None)]
     run_jobs(rep, __name__, jobs, nproc=6, chunk=1)
+    rep.floor('G-PARSE-GRAMMAR', 1)
     rep.floor('H-PARSER-HELPER', 3)
     rep.floor('R-NOPANIC', 2)
     rep.floor('V-PARSE-VALUE', 1)
@@ -459,10 +698,13 @@ def run(rep, tier):
     rep.assume('CONTRACT A (assumed, for the value clause V-PARSE-VALUE only): skip_leading_zeroes consumes the maximal prefix of \'0\' bytes; accum_coeff consumes the maximal prefix of k ASCII digits and leaves '
                '*coeff = (*coeff * 10^k + value of these digits) folded with the arithmetic its body uses (all multiply / add steps wrapping_* -> modulo 2^128, all saturating_* -> min(.., 2^128-1); read off the MIR, '
                'anything else fails the check), returning k; accum_exp likewise, exact for at most 2 digits. The SWAR digit test / conversion (chunk_contains_8_digits, chunk_to_u64) is inside this contract.')
-    rep.assume('NOT decided: the accepted grammar (which byte sequences are literals), the association of the sign bytes with the signs of coefficient and exponent')
+    rep.assume('NOT decided: contract A itself; whether a literal with a zero coefficient and an exponent beyond 38 (99) should be accepted (it is rejected)')
     rep.explanation = ('Clauses decided: (1) no panic and no out-of-bounds read; (2) under contract A, the magnitude of the result: with D the literal\'s digits read as one number and k the number of fractional digits, '
                        'every Ok((c, e)) path of str_to_dec has c = +-D with D <= i128::MAX implied by the path and e = +-(explicit exponent) - k; every Err(InternalOverflow) path implies D > i128::MAX '
-                       '(so an accumulation that overflowed is never accepted and a coefficient that fits is never rejected as overflow); the post-processing of (c, e) into a Decimal is C18\'s oracle A.10. '
+                       '(so an accumulation that overflowed is never accepted and a coefficient that fits is never rejected as overflow); the post-processing of (c, e) into a Decimal is C18\'s oracle A.10; '
+                       '(3) under contract A, the grammar: bytes are one atom per position, the scanners leave a trace of their runs and promise what the byte after a run is not; on every path the input string '
+                       'is reconstructed from these facts and judged by a DFA of the literal grammar written from the statement: Ok only for complete literals, with the signs of coefficient and exponent taken from '
+                       'the sign bytes; Err(Invalid) only when no completion is a literal; Err(Empty) only for the empty string; an early Err(FracDigitLimitExceeded) only with an exponent of magnitude >= 100. '
                        '(1):  The three scanning helpers (skip_leading_zeroes, accum_coeff, accum_exp) are interpreted alone over slices of every '
                        'length 0..=isize::MAX with generalisation (widening with thresholds, candidate relations to unchanged values) at their loop heads: no panic edge, the preconditions of '
                        'get_unchecked(n..) (n <= len) and read_unaligned::<u64> (len >= 8) hold at all unsafe call sites, and they establish: remaining length <= initial length, returned count = '
